@@ -356,8 +356,18 @@ impl<'a, 'c> G<'a, 'c> {
             // of the enclosing function(s)
             let outer: Vec<String> = inner.outer.iter().map(|(n, _)| n.clone()).filter(|n| !n.is_empty()).collect();
             if !outer.is_empty() && self.c.chance(220) {
-                let v = self.c.pick(&outer).clone();
+                // `outer` is ordered innermost first: prefer the variables of the closest scopes,
+                // and often capture two of them (two captured locals of one scope are closed by
+                // two consecutive scope-end instructions)
+                let near = outer.len().min(3);
+                let v = outer[self.c.draw(near)].clone();
                 body.push(log_stmt(Expr::Var(v.clone())));
+                if outer.len() >= 2 && self.c.chance(140) {
+                    let w = outer[self.c.draw(near.max(2).min(outer.len()))].clone();
+                    if w != v {
+                        body.push(log_stmt(Expr::Var(w)));
+                    }
+                }
                 if self.c.chance(150) {
                     let delta = Expr::Int(1 + self.c.draw(3) as i64);
                     body.push(Stmt::SetVar(v.clone(), Expr::Bin(BinOp::Add, Box::new(Expr::Var(v.clone())), Box::new(delta))));
